@@ -215,7 +215,9 @@ func newCLWorld(c *vk.Ctx, r *vk.Rng, hooks clHooks) *clWorld {
 		// an incentive with the longest authorised uptime from the start: young positions forfeit what they accrue
 		long := w.uptimes[len(w.uptimes)-1]
 		cctx, write := w.ch.Ctx.CacheContext()
-		if _, err := k.CreateIncentive(cctx, w.nbrID, w.funder.Addr, sdk.NewCoin(w.incentDenoms[r.Intn(len(w.incentDenoms))], w.amount(12, 18)), sdkmath.LegacyNewDecFromBigIntWithPrec(r.BigMag(18, 24), 18), w.ch.Ctx.BlockTime(), long); err == nil {
+		// (the neighbour's incentives are paid in the pool tokens, which the main pool's incentives never are: reward
+		// coins that end up in the wrong pool's books have nothing to hide behind)
+		if _, err := k.CreateIncentive(cctx, w.nbrID, w.funder.Addr, sdk.NewCoin([]string{w.d0, w.d1}[r.Intn(2)], w.amount(12, 18)), sdkmath.LegacyNewDecFromBigIntWithPrec(r.BigMag(18, 24), 18), w.ch.Ctx.BlockTime(), long); err == nil {
 			write()
 		}
 	}
@@ -261,7 +263,7 @@ func (w *clWorld) nbrStep() string {
 		w.nbrCreate(r.Intn(len(w.lps)), cur-sp*int64(1+r.Intn(50)), cur+sp*int64(1+r.Intn(50)))
 		return "neighbour-create"
 	case 2:
-		d := w.incentDenoms[r.Intn(len(w.incentDenoms))]
+		d := []string{w.d0, w.d1}[r.Intn(2)]
 		amt := w.amount(3, 18)
 		rate := sdkmath.LegacyNewDecFromBigIntWithPrec(r.BigMag(14, 26), 18)
 		up := w.uptimes[r.Intn(len(w.uptimes))]
